@@ -195,7 +195,13 @@ def run(ctx):
         ctx.violation(f)
         return
 
-    st = ctx.stats
+    f = core.run_random(ctx, random_shard, 8000, 60000)
+    if f is not None:
+        ctx.violation(f)
+
+
+def random_shard(st, shard, nshards, payload):
+    from hypothesis import strategies as hs
     kinds = {'PL': ['pl'], 'LTL': ['ltl_path', 'ltl_state'], 'CTLS': ['ctls_state', 'ctls_path'],
              'CTL': ['ctl', 'ctl_path']}
 
@@ -230,9 +236,9 @@ def run(ctx):
             st.sample(inp, cls='random-%s-%d' % (inp['logic'], fm.depth(t)))
         return check_roundtrip(inp)
 
-    f = core.run_hypothesis(ctx, cases(), body, ctx.pick(3000, 30000))
+    f = core.hyp_run(payload['seed'] * 1000 + shard, cases(), body, payload['n'])
     if f is not None:
-        ctx.violation(f)
+        st.failure = f
 
 
 def widen(t, which):
